@@ -27,6 +27,7 @@ type c06Case struct {
 	Driver   string // cpu | mem
 	Starve   string // "" | big | small
 	MaxAge   string // "" | old | young
+	AtMax    bool   // max_nodes equals the total node count (untainted + tainted)
 }
 
 const c06NodeMem = int64(4_000_000_000)
@@ -34,12 +35,15 @@ const c06NodeMem = int64(4_000_000_000)
 func c06Build(p c06Case) *h.Scenario {
 	g := StdGroup("g1")
 	g.Opts.MinNodes = p.Min
-	g.Opts.MaxNodes = 12
-	g.ASG.Max = 12
+	g.Opts.MaxNodes = 16
+	g.ASG.Max = 16
 	g.ASG.MemBytes = c06NodeMem
 	g.Opts.TaintLowerCapacityThresholdPercent, g.Opts.TaintUpperCapacityThresholdPercent, g.Opts.ScaleUpThresholdPercent = p.Lo, p.Up, p.Su
 	g.Opts.SlowNodeRemovalRate, g.Opts.FastNodeRemovalRate = p.Slow, p.Fast
 	g.Opts.ScaleOnStarve = p.Starve != ""
+	if p.AtMax {
+		g.Opts.MaxNodes = p.U + p.T
+	}
 	if p.MaxAge != "" {
 		g.Opts.MaxNodeAge = "1h"
 	}
@@ -85,6 +89,9 @@ func c06Build(p c06Case) *h.Scenario {
 			switch p.Starve {
 			case "big":
 				hh.W.AddPod(sim.PodOpt{CPUMilli: 2000, MemBytes: 1, Selector: sel(g), Phase: v1.PodPending})
+			case "just-too-big":
+				// fits on no node (1100m > 1000m) but small enough to leave a large group in a taint band
+				hh.W.AddPod(sim.PodOpt{CPUMilli: 1100, MemBytes: 1, Selector: sel(g), Phase: v1.PodPending})
 			case "small":
 				hh.W.AddPod(sim.PodOpt{CPUMilli: 1, MemBytes: 1, Selector: sel(g), Phase: v1.PodPending})
 			}
@@ -143,6 +150,21 @@ func c06Grid(t *testing.T, tier string, shard, shards int, c *h.Collector) {
 			}
 		}
 	}
+	// a starved pod while utilisation is in a taint band: 4 nodes (27.5 %, slow band) and 12 nodes
+	// (9.2 %, fast band), with and without a tainted node, the group's total at max_nodes or not
+	for _, u := range []int{4, 12} {
+		for tn := 0; tn <= 1; tn++ {
+			for _, min := range []int{0, 2} {
+				for _, atMax := range []bool{false, true} {
+					if atMax && tn == 0 {
+						continue
+					}
+					p := c06Case{U: u, T: tn, Min: min, Lo: 10, Up: 40, Su: 70, Slow: 1, Fast: 2, Ref: "lo", Num: 0, Den: 1, Driver: "cpu", Starve: "just-too-big", AtMax: atMax}
+					run(p)
+				}
+			}
+		}
+	}
 	// documented triggers
 	for u := 1; u <= 3; u++ {
 		for tn := 0; tn <= 1; tn++ {
@@ -150,6 +172,9 @@ func c06Grid(t *testing.T, tier string, shard, shards int, c *h.Collector) {
 				for _, pt := range []c06Point{{"lo", 1, 2, 0}, {"up", 1, 2, 0}, {"su", 9, 10, 0}, {"su", 2, 1, 0}} {
 					for _, st := range []string{"big", "small"} {
 						run(c06Case{U: u, T: tn, Min: min, Lo: 10, Up: 40, Su: 70, Slow: 1, Fast: 2, Ref: pt.ref, Num: pt.num, Den: pt.den, Driver: "cpu", Starve: st})
+						if tn > 0 && min < u+tn {
+							run(c06Case{U: u, T: tn, Min: min, Lo: 10, Up: 40, Su: 70, Slow: 1, Fast: 2, Ref: pt.ref, Num: pt.num, Den: pt.den, Driver: "cpu", Starve: st, AtMax: true})
+						}
 					}
 					for _, ma := range []string{"old", "young"} {
 						run(c06Case{U: u, T: tn, Min: min, Lo: 10, Up: 40, Su: 70, Slow: 1, Fast: 2, Ref: pt.ref, Num: pt.num, Den: pt.den, Driver: "cpu", MaxAge: ma})
